@@ -78,6 +78,11 @@ R1 = {
     "C16": [
         M("algo/HexNibble.tla", "algo/HexNibble.cfg", workers=8),
     ],
+    "C09": [
+        M("algo/Pow.tla", "algo/Pow_W4WIN2E2.cfg", workers=8), M("algo/Pow.tla", "algo/Pow_W4WIN4E2.cfg", workers=8),
+        M("algo/Pow.tla", "algo/Pow_W2WIN2E3.cfg"), M("algo/Pow.tla", "algo/Pow_W4WIN2E1_2bases.cfg", workers=8),
+        M("algo/Pow.tla", "algo/Pow_W6WIN3E2.cfg", tiers=T, workers=12, timeout=3000),
+    ],
     "C07": [
         M("algo/ModArith.tla", "algo/ModArith_plain_W3N2.cfg"),
         M("algo/ModArith.tla", "algo/ModArith_plain_W2N3.cfg"),
